@@ -389,7 +389,8 @@ theorem s1_facts (bufLen : Nat) (tr : Server.Transport) (payload id opcode : Nat
     s1.octets[0]? = some (UInt8.ofNat (id / 256 % 256)) ∧ s1.octets[1]? = some (UInt8.ofNat (id % 256)) ∧
     s1.octets[2]? = some (h2val opcode rd) ∧ s1.octets.getD 3 0 = 0 ∧ 3 < s1.octets.size ∧
     (∀ j, j < (qOctets q).length → s1.octets[12 + j]? = (qOctets q)[j]?) ∧
-    s1.qdcount = (if q.isSome then 1 else 0) ∧ s1.ancount = 0 ∧ s1.nscount = 0 ∧ s1.arcount = 0 := by
+    s1.qdcount = (if q.isSome then 1 else 0) ∧ s1.ancount = 0 ∧ s1.nscount = 0 ∧ s1.arcount = 0 ∧
+    s1.rrStart = 12 + (qOctets q).length ∧ s1.octets.size = bufLen := by
   intro s1
   have hH := hdrSt_ok bufLen tr payload id opcode rd hbuf hpay
   have hB : 3 < bufLen := by cases tr <;> simp only [minBuf] at hbuf <;> omega
@@ -399,7 +400,8 @@ theorem s1_facts (bufLen : Nat) (tr : Server.Transport) (payload id opcode : Nat
   | none =>
     have hs1 : s1 = hdrSt (w0 bufLen (lim0 tr)) id opcode rd := rfl
     rw [hs1]
-    refine ⟨base_of_hdr _ _ _ hH, hH.cursor, ?_, ?_, ?_, ?_, by rw [hszH]; exact hB, ?_, hH.qd, hH.an, hH.ns, hH.ar⟩
+    refine ⟨base_of_hdr _ _ _ hH, hH.cursor, ?_, ?_, ?_, ?_, by rw [hszH]; exact hB, ?_, hH.qd, hH.an, hH.ns, hH.ar,
+      hH.rrStart, hszH⟩
     · rw [hg]; simp
     · rw [hg]; simp
     · rw [hg]; simp
@@ -410,7 +412,7 @@ theorem s1_facts (bufLen : Nat) (tr : Server.Transport) (payload id opcode : Nat
     obtain ⟨p, hp, hpw, _, _, hwl⟩ := specQuestionAt_some msg 12 _ _ _ nx hsq
     obtain ⟨qn, hqn, hqw⟩ := wname_of_parse msg 12 p hp
     rw [hpw] at hqn hqw
-    obtain ⟨_, hbase, hoct, hcur, hqd, han, hns, har⟩ := qSt_some _ tr payload hH x qn hqn hqw hwl
+    obtain ⟨_, hbase, hoct, hcur, hqd, han, hns, har, hrrs⟩ := qSt_some _ tr payload hH x qn hqn hqw hwl
     have hlen : (qOctets (some x)).length = x.qname.length + 4 := by
       simp [qOctets, u16be_length]
     have hmerge : s1.octets = writeAt (hdrSt (w0 bufLen (lim0 tr)) id opcode rd).octets 12 (qOctets (some x)) := by
@@ -425,7 +427,7 @@ theorem s1_facts (bufLen : Nat) (tr : Server.Transport) (payload id opcode : Nat
       intro i hi
       rw [hmerge, writeAt_getElem?, if_neg (by omega)]
     refine ⟨hbase, by rw [hlen]; exact hcur, ?_, ?_, ?_, ?_, by rw [hsz1]; exact hB, ?_, by rw [hqd]; rfl,
-      by rw [han]; exact hH.an, by rw [hns]; exact hH.ns, har⟩
+      by rw [han]; exact hH.an, by rw [hns]; exact hH.ns, har, by rw [hlen]; exact hrrs, hsz1⟩
     · rw [hlow 0 (by omega), hg]; simp
     · rw [hlow 1 (by omega), hg]; simp
     · rw [hlow 2 (by omega), hg]; simp
@@ -463,7 +465,7 @@ theorem handleMessage_noData (cfg : Server.Cfg) (tr : Server.Transport) (now buf
   simp only
   obtain ⟨p1, p2, p3⟩ := specBody_props (catKind cfg) cfg.payload req
   rw [hsc] at p1 p2 p3
-  obtain ⟨hbase, hcur, o0, o1, o2, h30, hs3, hQ, hqd, han, hns, har⟩ :=
+  obtain ⟨hbase, hcur, o0, o1, o2, h30, hs3, hQ, hqd, han, hns, har, _, _⟩ :=
     s1_facts bufLen tr cfg.payload (Spec.Server.hdr req 0) (((req.getD 2 0).toNat &&& 120) >>> 3)
       (((req.getD 2 0).toNat &&& 1) != 0) hbuf hpay req sc.question
       (fun x hx => specBody_question (catKind cfg) cfg.payload req x (by rw [hsc]; exact hx))
